@@ -3,11 +3,15 @@
  * states are deduplicated by a canonical hash of the private iterator fields + the reference model's state.
  * A second mode ("tree") explores all histories up to a small depth WITHOUT deduplication, so that the verdict does not
  * rest on the state abstraction alone. */
+#ifndef VH_BLACKBOX      /* white-box view: private structures of the repository, used ONLY to identify states (canon_sys) */
 #include "iter.c"
 #include "block.c"
 #include "reader.c"
+#endif
 #include "tbl.h"
+#ifndef VH_BLACKBOX
 #include "canon_reader.h"
+#endif
 
 /* ------------------------------------------------------------ table under test */
 #define MAXN 48
@@ -180,7 +184,13 @@ static bool sys_step(rsys *S, int op) {
 }
 
 /* ------------------------------------------------------------ canonical state */
-static uint64_t canon_sys(const rsys *S) {
+#ifdef VH_BLACKBOX
+/* no private view: a state is identified by its history, nothing is merged, and the search below is cut at a depth chosen from
+ * the alphabet size (see bfs()) instead of running to a fixpoint */
+static uint64_t canon_sys(const rsys *S, const int *ops, int n) { (void) S; uint64_t h = vh_mix(0xb1ac, (uint64_t) n); for (int i = 0; i < n; i++) h = vh_mix(h, (uint64_t) ops[i] + 1); return h; }
+#else
+static uint64_t canon_sys(const rsys *S, const int *ops, int n) {
+	(void) ops; (void) n;
 	uint64_t h = 42;
 	for (int i = 0; i < S->m; i++) {
 		const rit *x = &S->it[i];
@@ -191,6 +201,7 @@ static uint64_t canon_sys(const rsys *S) {
 	}
 	return h;
 }
+#endif
 
 /* ------------------------------------------------------------ search */
 typedef struct { int parent; int op; uint64_t canon; int depth; } snode;
@@ -232,7 +243,7 @@ static bool run_history(rcase *c, uint64_t *canon_out) {
 		VH_COUNT("transitions", 1);
 	}
 	if (ok) for (int j = 0; j < S.m; j++) if (!check_last(&S, j)) { vh_violation("buffers", "%s  [%s]", g_fail, explain(c)); ok = false; break; }
-	if (canon_out) *canon_out = canon_sys(&S);
+	if (canon_out) *canon_out = canon_sys(&S, c->ops, c->nops);
 	sys_close(&S);
 	VH_COUNT("executions", 1);
 	return ok;
@@ -258,6 +269,9 @@ static bool bfs(rcase *c) {
 	for (size_t s = 0; s < nnodes && ok; s++) {
 		int base[64]; int d = hist_of((int) s, base);
 		if (d >= 62) { VH_COUNT("bfs_depth_cap_hit", 1); break; }
+#ifdef VH_BLACKBOX
+		{ double lim = vh_thorough ? 300000.0 : 4000.0, p = 1; int D = 0; while (p * na <= lim || D < 2) { p *= na; D++; } if (d >= D) continue; vh_max("blackbox_depth", D); }
+#endif
 		for (int ai = 0; ai < na; ai++) {
 			memcpy(c->ops, base, d * sizeof(int)); c->ops[d] = alpha[ai]; c->nops = d + 1;
 			uint64_t h;
@@ -268,9 +282,9 @@ static bool bfs(rcase *c) {
 			bool stepok = true;
 			for (int i = 0; i < d && stepok; i++) stepok = sys_step(&S, c->ops[i]);
 			if (!stepok) { vh_violation_case("nondeterminism", vh_cur_case(), "prefix that passed before now fails: %s", g_fail); printf("@error \"riter: replay of a checked prefix failed (uncontrolled nondeterminism)\"\n"); sys_close(&S); ok = false; break; }
-			if (canon_sys(&S) != nodes[s].canon) { printf("@error \"riter: canonical state differs between two replays of the same history\"\n"); sys_close(&S); ok = false; break; }
+			if (canon_sys(&S, c->ops, d) != nodes[s].canon) { printf("@error \"riter: canonical state differs between two replays of the same history\"\n"); sys_close(&S); ok = false; break; }
 			if (!sys_step(&S, alpha[ai])) { vh_violation("seek-contract", "%s  [%s]", g_fail, explain(c)); sys_close(&S); ok = false; break; }
-			h = canon_sys(&S);
+			h = canon_sys(&S, c->ops, d + 1);
 			sys_close(&S);
 			VH_COUNT("transitions", 1); VH_COUNT("executions", 1);
 			if (vh_set_add(&seen, h)) {
